@@ -34,12 +34,30 @@ legs: MC   TLC checks the laws of the inventory algebra (monoid, F(a+b) = F(a)+F
       balance statements of C2S carry a LIMIT now and then (the rows are then a prefix of SerialRows).
       Price directives dated AFTER the day the check runs (forecasts) are part of the generated price tables, the random
       ledgers and the example windows: "no date" means the latest price entered, for positions and inventories alike.
+      balance UNDER AN ENCLOSING EXPRESSION whose other operand is NULL (decides) on some rows -- target kinds XB
+      g(x, balance), BX g(balance, x) (function calls) and XL (short-circuit operators) of Balance.tla with the NULL
+      pattern `nul` as a dimension of the program: the balance is the same prefix sum for every reference, whatever
+      encloses it and whether or not the enclosing expression showed it in earlier rows.  MC: every ledger <= 2 (3)
+      postings x NULL pattern x row filter; non-vacuity: function calls that stop at the first NULL operand must be
+      rejected; the short-circuit operators AS SHIPPED are rejected too (known finding).  S2C / C2S: realised with
+      identity-like BQL functions registered through the public registry (c12_second(x, balance), c12_first(balance, x),
+      coalesce(c12_mark(x), balance)) over a NULL-able metadata key (S2C) / a NULL-able column of the ledger (C2S).
+      LAW leg (relational, no oracle): "however many times the targets reference it" -- a statement whose only
+      reference is inside an expression E(balance) with a NULL-able operand (built-in functions: only, convert, value,
+      filter_currency, ...; operators: AND, OR, coalesce, *) returns the same E values as the statement with a plain
+      `balance` target added.
+      ONE CONNECTION ATTACHED AGAIN (spec/Reload.tla: attach / statement row by row / finish; a memo of the per-posting
+      conversions keyed by connection and arguments is refuted): every S2C case carries a second price table and the
+      expectations for it, the driver attaches the ledger with the edited prices to the SAME connection and runs the
+      aggregate families again; every C2S ledger is attached a second time with edited prices and further hom lines
+      are recorded (judged by TLC with the prices attached at that time).
       A mismatch is replayed by TLC on the mechanism as shipped before fix 678e809 (Trace_Balance_shipped.cfg, one
       process-wide cache entry): if that explains the observation exactly and the statement has the matching shape the
       violation gets the key of that defect (listed as fixed in known_findings.d), otherwise a key naming the statement shape.
 """
 import dataclasses
 import datetime
+import decimal
 import io
 import json
 import random
@@ -49,7 +67,110 @@ from harness import sumstore as ss
 from harness.core import MachineryError
 
 KNOWN_KEY = 'balance:interposed-scan:double-count'
-COVER = ('NextRow', 'Finish', 'EvalBalance', 'Mask', 'Interpose', 'UpdateAgg', 'EmitRow')
+LAZY_KEY = 'balance:under-short-circuit-operator:coalesce'
+COVER = ('NextRow', 'Finish', 'EvalBalance', 'EvalNested', 'Mask', 'Interpose', 'UpdateAgg', 'EmitRow')
+
+
+# ---- balance under an enclosing expression (target kinds XB, BX, XL of Balance.tla) ---------------------------------
+NESTED = ('XB', 'BX', 'XL')
+MARK = 'CNULL'
+_INSTALLED = []
+
+
+def install_functions():
+    """identity-like BQL functions, registered through beanquery's public function registry (query_env.function):
+    c12_second(x, inv) = inv, c12_first(inv, x) = inv -- NULL when x is NULL, as every BQL function -- and
+    c12_mark(x) = a marker inventory (projected to NULL) for the first operand of coalesce()"""
+    if _INSTALLED:
+        return
+    from beancount.core import amount, inventory, position
+    from beanquery import query_env
+
+    def c12_second(x, inv):
+        return inv
+
+    def c12_first(inv, x):
+        return inv
+
+    def c12_mark(x):
+        return inventory.Inventory([position.Position(amount.Amount(hb.D(1), MARK), None)])
+    # (the registry matches `object` for untyped values only: one overload per datatype of the other operand)
+    for t in (object, str, datetime.date, decimal.Decimal, amount.Amount):
+        query_env.function([t, inventory.Inventory], inventory.Inventory, name='c12_second')(c12_second)
+        query_env.function([inventory.Inventory, t], inventory.Inventory, name='c12_first')(c12_first)
+        query_env.function([t], inventory.Inventory, name='c12_mark')(c12_mark)
+    _INSTALLED.append(True)
+
+
+def has_nested(prog, kinds=NESTED):
+    return any(a in kinds for a in prog['targets'])
+
+
+def nested_exprs(style):
+    x = (style or {}).get('x', "any_meta('nn')")        # NULL on the postings marked in `nul`
+    y = (style or {}).get('y', "any_meta('nu')")        # not NULL exactly there
+    return {'XB': 'c12_second(%s, balance)' % x, 'BX': 'c12_first(balance, %s)' % x,
+            'XL': 'coalesce(c12_mark(%s), balance)' % y}
+
+
+def statement(prog, tid=0, rng=None, style=None):
+    """hb.statement for programs whose targets may be XB / BX / XL"""
+    plain = dict(prog, targets=['B' if a in NESTED else a for a in prog['targets']])
+    text, params, cols, parts = hb.statement(plain, tid, rng, style)
+    if has_nested(prog):
+        install_functions()
+        ex = nested_exprs(style)
+        tg = list(parts[0])
+        for n, a in enumerate(prog['targets']):
+            if a in NESTED:
+                tg[n + 1] = (ex[a], tg[n + 1][1])
+        parts = (tg,) + tuple(parts[1:])
+        text = hb.select_text(*parts)
+    return text, params, cols, parts
+
+
+def project_rows(raw, cols):
+    rows = hb.project_rows(raw, cols)
+    for r in rows:
+        r[1] = [None if v is not None and any(k[0] == MARK for k in v) else v for v in r[1]]
+    return rows
+
+
+def run_program(conn, prog, rng=None, style=None, as_text=False):
+    text, params, cols, parts = statement(prog, 0, rng, style)
+    cur = conn.execute(text if as_text else hb.select(*parts), params)
+    return project_rows(cur.fetchall(), cols), text
+
+
+def expected_rows(spec_rows, prog, scale=1):
+    """rows emitted by TLC in the shape of project_rows; the NULL marker of Balance.tla (NullInv) is None"""
+    ns = sum(1 for a in prog['targets'] if a == 'S')
+    return [[rowid, [None if any(p[0][0] == 'NULL' for p in v) else hb.spec_inventory(v, scale) for v in vals], [sval] * ns]
+            for rowid, vals, sval in spec_rows]
+
+
+def trace_prog(prog, ledger_positions=None):
+    tp = hb.prog_to_trace(prog, ledger_positions)
+    if has_nested(prog):
+        tp['nul'] = [bool(x) for x in prog['nul']]
+    return tp
+
+
+def mark_nul(entries, nul):
+    """posting i gets the metadata key nu when nul[i] and nn otherwise (any_meta() of the other key is NULL)"""
+    from beancount.core import data
+    out = []
+    for e in entries:
+        if isinstance(e, data.Transaction):
+            e = e._replace(postings=[p._replace(meta=dict(p.meta, **{'nu' if nul[p.meta['pid'] - 1] else 'nn': 'y'}))
+                                     for p in e.postings])
+        out.append(e)
+    return out
+
+
+def reattach(conn, entries):
+    """the edited ledger is attached to the SAME connection object (what the shell does on .reload)"""
+    conn.attach('beancount:', entries=entries, errors=[], options=hb.options())
 
 
 # ---- f in BQL --------------------------------------------------------------------------------------------------
@@ -115,29 +236,32 @@ def cmp_rows(exp, got):
 def replay_case(ctx, c, rseed, suspects, sample=False):
     """rseed fixes the realisation (scale of the units, packing into transactions, statement style): stored in the case"""
     rng = random.Random(rseed)
-    prog = {k: c[k] for k in ('ledger', 'mask', 'where', 'targets', 'subbal')}
+    prog = {k: c[k] for k in ('ledger', 'mask', 'where', 'targets', 'subbal', 'nul')}
     prog['agg'] = False
+    if c['rows'] != c['mech'] and not has_nested(prog, ('XL',)):
+        raise MachineryError('the mechanism of Balance.tla and SerialRows disagree on a generated case: %s' % json.dumps(prog))
     scale = rng.choice((1, 1, 10, 100))
     from beancount.core import data
     # price directives may be dated after the last transaction (and after today): keep the ledger in date order
-    entries = sorted(hb.build_entries(c['ledger'], c['mask'], c['grp'], c['prices'], rng, scale), key=data.entry_sortkey)
+    txns = mark_nul(hb.build_entries(c['ledger'], c['mask'], c['grp'], (), rng, scale), c['nul'])
+    entries = sorted(hb.build_entries([], [], [], c['prices']) + txns, key=data.entry_sortkey)
     conn = hb.connect(entries)
     case = {'kind': 'balance', 'case': c, 'scale': scale, 'rseed': rseed}
     ok = True
     # -- the balance column
     lim, lrows = 0, None
     try:
-        rows, text = hb.run_program(conn, prog, rng=rng, as_text=sample)
-        again = hb.run_program(conn, prog, rng=rng)[0] if rng.random() < 0.3 else rows
+        rows, text = run_program(conn, prog, rng=rng, as_text=sample)
+        again = run_program(conn, prog, rng=rng)[0] if rng.random() < 0.3 else rows
         if rng.random() < 0.25:
             # the same statement with a LIMIT: the first rows of the specification's rows
             lim = rng.randint(1, 4)
-            ltext, params, cols, parts = hb.statement(prog, 0, rng)
-            lrows = hb.project_rows(conn.execute(limited(hb.select(*parts), lim), params).fetchall(), cols)
+            ltext, params, cols, parts = statement(prog, 0, rng)
+            lrows = project_rows(conn.execute(limited(hb.select(*parts), lim), params).fetchall(), cols)
     except Exception as ex:  # noqa
         ctx.violation('balance:exception:%s' % type(ex).__name__, 'statement raised %r' % (ex,), case, 'S2C')
         return False
-    exp = hb.expected_rows(c['rows'], prog, scale)
+    exp = expected_rows(c['rows'], prog, scale)
     why = cmp_rows(exp, rows) or cmp_rows(exp, again)
     if why:
         suspects.add('S2C', prog, rows if cmp_rows(exp, rows) else again, case, exp, text)
@@ -155,6 +279,25 @@ def replay_case(ctx, c, rseed, suspects, sample=False):
         ok &= check_hom(ctx, conn, fs, hom, where, scale, case, scope, rng, as_text=sample and scope == 'sel')
     # -- sum() over inventory values that outlive the statement: a user table, a history of statements
     ok &= check_table_history(ctx, c, conn, entries, rng, scale, case, as_text=sample)
+    # -- the ledger is edited (another price table) and attached to the same connection again: every aggregate family
+    #    once more, against the expectations TLC computed with the second price table; then the balance statement
+    try:
+        reattach(conn, sorted(hb.build_entries([], [], [], c['prices2']) + txns, key=data.entry_sortkey))
+    except Exception as ex:  # noqa
+        ctx.violation('reload:exception:%s' % type(ex).__name__, 'attaching the edited ledger raised %r' % (ex,), case, 'S2C')
+        return False
+    for scope, hom, where in (('all', c['homall2'], []), ('sel', c['homsel2'], ["account ~ ':Sel'"])):
+        ok &= check_hom(ctx, conn, fs, hom, where, scale, case, scope + ':reattached', rng, light=True)
+    if ok and rng.random() < 0.3:
+        try:
+            rows2 = run_program(conn, prog, rng=rng)[0]
+        except Exception as ex:  # noqa
+            ctx.violation('balance:exception:%s' % type(ex).__name__, 'statement raised %r' % (ex,), case, 'S2C')
+            return False
+        if cmp_rows(exp, rows2):
+            ctx.violation('balance:reattached:' + hb.shape_key(prog), 'rows of %s after the ledger was attached again: %s' % (
+                text, cmp_rows(exp, rows2)), case, 'S2C', hb_show_rows(exp), hb_show_rows(rows2))
+            ok = False
     return ok
 
 
@@ -232,13 +375,16 @@ def check_table_history(ctx, c, conn, entries, rng, scale, case, as_text=False):
     return ok
 
 
-def check_hom(ctx, conn, fs, hom, where, scale, case, scope, rng, as_text=False):
+def check_hom(ctx, conn, fs, hom, where, scale, case, scope, rng, as_text=False, light=False):
+    """light: the two statements that hold every sum(f(position)) / f(sum(position)), ungrouped and grouped"""
     ok = True
+    again = ':reattached' if scope.endswith(':reattached') else ''
 
     def bad(key, clause, expected, observed):
         nonlocal ok
         ok = False
-        ctx.violation(key, clause, dict(case, scope=scope), 'S2C', expected, observed)
+        ctx.violation(key + again, clause + (' (the ledger attached again to the same connection with edited prices)'
+                                             if again else ''), dict(case, scope=scope), 'S2C', expected, observed)
 
     def cmp_row(row, exp, what):
         got = [hb.proj_any(v) for v in row]
@@ -259,22 +405,23 @@ def check_hom(ctx, conn, fs, hom, where, scale, case, scope, rng, as_text=False)
         inner = ([('leaf(account)', 'g'), ('sum(position)', 's'), ('cost(sum(position))', 'c'),
                   ('sum(units(position))', 'u')], None, where, ['g'])
         prows = hb.run_select(conn, [('sum(s)', 't'), ('sum(c)', 'tc'), ('sum(u)', 'tu')], inner, as_text=as_text) \
-            if as_text or rng.random() < 0.3 else None
+            if not light and (as_text or rng.random() < 0.3) else None
         # the grouped statement with a LIMIT below / at / above the number of groups, no ORDER BY
         lim = rng.choice((1, 1, 1, 2, 3))
-        lrows = conn.execute(hb.select_text(*inner) + ' LIMIT %d' % lim if as_text else limited(hb.select(*inner), lim)).fetchall()
+        lrows = None if light else conn.execute(
+            hb.select_text(*inner) + ' LIMIT %d' % lim if as_text else limited(hb.select(*inner), lim)).fetchall()
         # partial sums (per account and day) aggregated again: the operand of sum() is an inventory, one to three
         # aggregate nodes read it (sum, f of the sum, sum of f), with / without GROUP BY and HAVING
         inner2 = ([('account', 'acc'), ('date', 'd'), ('sum(position)', 'inv')], None, where, ['acc', 'd'])
         s2 = ss.random_stmt(rng, fs)
         irows = None
-        if as_text or rng.random() < 0.6:
+        if not light and (as_text or rng.random() < 0.6):
             irows = ss.project(conn.execute(ss.stmt_ast(s2, hb.select(*inner2), key='leaf(acc)')).fetchall(), s2)
             irows = [[group_key(k), v] for k, v in irows]
     except Exception as ex:  # noqa
         bad('sum:exception:%s' % type(ex).__name__, 'aggregate statement raised %r' % (ex,), None, None)
         return False
-    ctx.case(None, n=5)
+    ctx.case(None, n=2 if light else 5)
     empty = {'tot': [], 'f': [[] for _ in fs]}
     if hom['n'] == 0:
         if lrows:
@@ -310,8 +457,10 @@ def check_hom(ctx, conn, fs, hom, where, scale, case, scope, rng, as_text=False)
                 if e != g:
                     bad('sum:partition:%s' % what, 'sum over the group sums of %s = sum of the whole' % what,
                         hb.show_inv(e), hb.show_inv(g))
-        lkeys = [r[0] for r in lrows]
-        if len(lkeys) != min(lim, len(want)) or len(set(lkeys)) != len(lkeys) or not set(lkeys) <= set(want):
+        lkeys = [r[0] for r in lrows or ()]
+        if lrows is None:
+            pass
+        elif len(lkeys) != min(lim, len(want)) or len(set(lkeys)) != len(lkeys) or not set(lkeys) <= set(want):
             bad('sum:groups:limit', 'groups returned by GROUP BY g LIMIT %d' % lim,
                 '%d of %s' % (min(lim, len(want)), sorted(want)), lkeys)
         else:
@@ -444,6 +593,11 @@ def random_ledger(rng, n):
 
 WHERES = ([], ['M'], ['BT', 'M'], ['M', 'BT'], ['M', 'BN'], ['BN'], ['BN', 'M'], ['S', 'M'], ['BT'], ['M', 'S'])
 TARGETS = ([], ['B'], ['B', 'B'], ['B', 'B', 'B'], ['B', 'S', 'B'], ['S', 'B', 'B'], ['S', 'B'], ['B', 'S', 'S', 'B'])
+NESTED_TARGETS = (['XB'], ['BX'], ['XB', 'XB'], ['XB', 'BX'], ['B', 'XB'], ['S', 'XB'], ['XB', 'S', 'BX'], ['XL'], ['XL', 'XL'],
+                  ['S', 'XL'])
+# the other operand of the enclosing expression: columns of the postings table that are NULL on some postings
+EX_NULLABLE = ('cost_currency', 'cost_date', 'cost_label', 'price', 'cost_number')
+RND_NULLABLE = ('cost_currency', 'cost_date', 'cost_label', 'payee')
 EX_MASKS = ("account ~ 'Expenses'", "account ~ 'Assets'", "number > 0", "currency = 'USD'", "cost_number IS NOT NULL",
             "account ~ 'Income|Liabilities'", "NOT currency = 'USD'", "number < 100")
 RND_MASKS = ("account ~ 'Bank'", "account ~ ':A'", "number > 0", "currency = 'USD'", "cost_number IS NOT NULL",
@@ -454,23 +608,29 @@ RND_DATES = (737400, 737600, 737790, FUTURE0 + 150000)
 RND_GROUPS = ('leaf(account)', 'root(account, 2)', 'currency', 'cost_currency', 'account')
 
 
-def record_serial(ctx, conn, npost, rng, masks, out, suspects):
+def record_serial(ctx, conn, npost, rng, masks, out, suspects, nullable=()):
     """one statement over the balance column -> one `serial` line"""
     mask_text = rng.choice(masks)
-    base = hb.run_select(conn, [(hb.PID, 'pid'), ('position', 'p'), (mask_text, 'm')], '#postings')
+    targets = list(rng.choice(NESTED_TARGETS if nullable and rng.random() < 0.4 else TARGETS))
+    # the NULL-able operand next to balance and the postings on which it is NULL (function calls) / decides (coalesce)
+    x = rng.choice(nullable) if nullable else 'payee'
+    nul_text = '%s IS NOT NULL' % x if 'XL' in targets else '%s IS NULL' % x
+    base = hb.run_select(conn, [(hb.PID, 'pid'), ('position', 'p'), (mask_text, 'm'), (nul_text, 'n')], '#postings')
     if [r[0] for r in base] != list(range(1, npost + 1)):
         raise MachineryError('posting ids are not 1..n in table order')
-    prog = {'where': list(rng.choice(WHERES)), 'targets': list(rng.choice(TARGETS)), 'subbal': rng.random() < 0.6,
-            'agg': False, 'mask': [bool(r[2]) for r in base]}
-    style = {'mask_text': mask_text, 'split': rng.randint(0, len(prog['where'])), 'table': rng.random() < 0.5}
-    lim = rng.randint(1, 12) if rng.random() < 0.3 else 0
+    prog = {'where': list(rng.choice(WHERES)), 'targets': targets, 'subbal': rng.random() < 0.6,
+            'agg': False, 'mask': [bool(r[2]) for r in base], 'nul': [bool(r[3]) for r in base]}
+    style = {'mask_text': mask_text, 'split': rng.randint(0, len(prog['where'])), 'table': rng.random() < 0.5,
+             'x': x, 'y': x}
+    # (no LIMIT under a short-circuit operator: the classification replays whole runs)
+    lim = rng.randint(1, 12) if rng.random() < 0.3 and 'XL' not in targets else 0
     rows, text = run_with_mask(conn, prog, style, lim)
     positions = [hb.proj_position(r[1]) for r in base]
     try:
         k = max([0] + [max(hb.places(n), hb.places(key[1][0])) for key, n in positions] + [hb.rows_scale(rows)])
         sc = 10 ** k
         prog['ledger'] = [hb.json_position(p, sc) for p in positions]
-        line = {'k': 'serial', 'id': len(out) + 1, 'prog': hb.prog_to_trace(prog), 'rows': hb.rows_to_trace(rows, sc),
+        line = {'k': 'serial', 'id': len(out) + 1, 'prog': trace_prog(prog), 'rows': hb.rows_to_trace(rows, sc),
                 'sv': [[r[0], r[2]] for r in rows], 'lim': lim}
     except hb.OutOfDomain:
         ctx.skipped += 1
@@ -481,16 +641,84 @@ def record_serial(ctx, conn, npost, rng, masks, out, suspects):
 
 
 def run_with_mask(conn, prog, style, lim=0):
-    text, params, cols, parts = hb.statement(prog, 0, None, style)
+    text, params, cols, parts = statement(prog, 0, None, style)
     raw = conn.execute(limited(hb.select(*parts), lim), params).fetchall()
-    return hb.project_rows(raw, cols), text + (' LIMIT %d' % lim if lim else '')
+    return project_rows(raw, cols), text + (' LIMIT %d' % lim if lim else '')
 
 
-def record_hom(ctx, conn, rng, masks, groups, dates, out, prices=None):
-    """one aggregate family -> one `hom` line"""
-    f = rng.choice((('units', '', 0), ('cost', '', 0), ('value', '', 0), ('value', '', rng.choice(dates)),
-                    ('convert', 'USD', 0), ('convert', 'CAD', 0), ('convert', 'CAD', rng.choice(dates)),
-                    ('convert', 'JPY', 0)))
+# ---- LAW leg: the number of references does not change the balance -----------------------------------------------------
+# (construct, E): E's value depends on balance and on an operand that is NULL / decides on some postings
+LAW_EXPRS = (
+    ('function:only', 'only(cost_currency, balance)'),
+    ('function:convert', 'convert(balance, cost_currency)'),
+    ('function:convert-dated', "convert(balance, 'USD', cost_date)"),
+    ('function:value-dated', 'value(balance, cost_date)'),
+    ('function:filter_currency', 'filter_currency(balance, cost_currency)'),
+    ('function:only-of-units', 'only(cost_currency, units(balance))'),
+    ('function:plain', "only('USD', balance)"),
+    ('operator:and', 'number > 0 AND empty(balance)'),
+    ('operator:or', 'number > 0 OR empty(balance)'),
+    ('operator:coalesce', 'coalesce(cost_currency, str(balance))'),
+    ('operator:binary', "cost_number * number(only('USD', balance))"),
+)
+
+
+def law_rows(conn, e, where, first):
+    one = [(hb.PID, 'pid'), (e, 'v')]
+    two = [(hb.PID, 'pid')] + ([('balance', 'b'), (e, 'v')] if first else [(e, 'v'), ('balance', 'b')])
+    r1 = [tuple(r) for r in hb.run_select(conn, one, '#postings', where)]
+    r2 = hb.run_select(conn, two, '#postings', where)
+    return r1, [(r[0], r[2] if first else r[1]) for r in r2]
+
+
+def pack_entries(entries):
+    import base64
+    import pickle
+    import zlib
+    return base64.b64encode(zlib.compress(pickle.dumps(entries))).decode()
+
+
+def unpack_entries(text):
+    import base64
+    import pickle
+    import zlib
+    return pickle.loads(zlib.decompress(base64.b64decode(text)))
+
+
+def check_reference_law(ctx, conn, entries, rng, masks, stats):
+    """"... however many times the targets reference it": the statement whose ONLY reference to balance sits inside E
+    returns, row by row, the E values of the same statement with a plain `balance` target added (before or after E).
+    Relational: the two statements judge each other, nothing is recomputed here."""
+    construct, e = rng.choice(LAW_EXPRS)
+    where = [] if rng.random() < 0.4 else [rng.choice(masks)]
+    first = rng.random() < 0.5
+    case = {'kind': 'law', 'expression': e, 'where': where, 'first': first}
+    try:
+        r1, v2 = law_rows(conn, e, where, first)
+    except Exception as ex:  # noqa
+        ctx.violation('balance:reference-count:exception:%s' % type(ex).__name__, 'SELECT %s raised %r' % (e, ex),
+                      dict(case, entries=pack_entries(entries)), 'LAW')
+        return
+    ctx.case('law:%s:%s:%d' % (e, where, len(r1)), nontrivial=len(r1) > 1, n=2)
+    stats['pairs'] += 1
+    stats['null_rows'] += sum(1 for r in r1 if r[1] is None)
+    if r1 != v2:
+        n = next((i for i, (a, b) in enumerate(zip(r1, v2)) if a != b), min(len(r1), len(v2)))
+        ctx.violation('balance:reference-count:' + construct,
+                      'SELECT %s%s: the values differ from those of the same statement with a plain balance target %s '
+                      '(first at row %d of %d)' % (e, ' WHERE ' + where[0] if where else '', 'before' if first else 'after',
+                                                  n + 1, len(r1)), dict(case, entries=pack_entries(entries)), 'LAW',
+                      repr(v2[n][1]) if n < len(v2) else None, repr(r1[n][1]) if n < len(r1) else None)
+    else:
+        ctx.traces += 1
+
+
+def record_hom(ctx, conn, rng, masks, groups, dates, out, prices=None, f=None, again=False):
+    """one aggregate family -> one `hom` line; returns the function it used.  again: the ledger has been attached to
+    the connection a second time (edited prices) and f has been used on it before"""
+    f = f or rng.choice((('units', '', 0), ('cost', '', 0), ('value', '', 0), ('value', '', rng.choice(dates)),
+                         ('convert', 'USD', 0), ('convert', 'CAD', 0), ('convert', 'CAD', rng.choice(dates)),
+                         ('convert', 'JPY', 0)))
     where = [] if rng.random() < 0.3 else [rng.choice(masks)]
     g = rng.choice(groups)
     fp, fs = f_bql(f, 'position'), f_bql(f, 'sum(position)')
@@ -501,17 +729,17 @@ def record_hom(ctx, conn, rng, masks, groups, dates, out, prices=None):
     # the grouped statement once more with a LIMIT (no ORDER BY): below, at or above the number of groups
     lim = rng.choice((1, 1, 2, 3, 5))
     lgrp = conn.execute(limited(hb.select([(g, 'g')] + sums, '#postings', where, ['g']), lim)).fetchall()
-    ctx.case('hom:%s:%s:%s:%d' % (f_name(f), where, g, len(per)), n=4)
+    ctx.case('hom:%s:%s:%s:%d%s' % (f_name(f), where, g, len(per), ':again' if again else ''), n=4)
     if not per:
         if tot or grp or lgrp:
             ctx.violation('sum:rows:empty', 'aggregate over an empty selection returned rows', {'where': where}, 'C2S')
-        return
+        return f
     pos = [hb.proj_position(r[0]) for r in per]
     fpos = [hb.proj_amount(r[1]) for r in per]
     invs = [hb.proj_any(v) for v in tot[0]] if len(tot) == 1 else None
     if invs is None:
         ctx.violation('sum:rows', 'one row for an ungrouped aggregate', {'where': where}, 'C2S', 1, len(tot))
-        return
+        return f
     ginvs = [(r[0], [hb.proj_any(v) for v in r[1:]]) for r in grp]
     linvs = [(r[0], [hb.proj_any(v) for v in r[1:]]) for r in lgrp]
     try:
@@ -527,13 +755,13 @@ def record_hom(ctx, conn, rng, masks, groups, dates, out, prices=None):
         if sorted(map(repr, idx)) != sorted(repr(gk) for gk, _ in ginvs):
             ctx.violation('sum:groups:keys', 'group keys differ from the keys of the rows', {'where': where, 'group': g},
                           'C2S', sorted(map(repr, idx)), sorted(repr(gk) for gk, _ in ginvs))
-            return
+            return f
         jgroups = [[idx[gk]] + [hb.json_inventory(x, sc) for x in gi] for gk, gi in ginvs]
         if any(gk not in idx for gk, _ in linvs):
             ctx.violation('sum:groups:limit-keys', 'GROUP BY %s LIMIT %d returned a key no row has' % (g, lim),
                           {'where': where, 'group': g, 'limit': lim}, 'C2S', sorted(map(repr, idx)),
                           [repr(gk) for gk, _ in linvs])
-            return
+            return f
         jlgroups = [[idx[gk]] + [hb.json_inventory(x, sc) for x in gi] for gk, gi in linvs]
         jprices = [[b, q, d, hb.scaled_int(r, sc)] for b, q, d, r in (prices or [])]
         op = 0
@@ -547,9 +775,34 @@ def record_hom(ctx, conn, rng, masks, groups, dates, out, prices=None):
                 'f_sum': hb.json_inventory(invs[2], sc), 'groups': jgroups, 'lim': lim, 'lgroups': jlgroups}
     except hb.OutOfDomain:
         ctx.skipped += 1
-        return
-    line['_text'] = 'sum(%s) / %s WHERE %s GROUP BY %s [LIMIT %d]' % (fp, fs, where, g, lim)
+        return f
+    line['_text'] = 'sum(%s) / %s WHERE %s GROUP BY %s [LIMIT %d]%s' % (
+        fp, fs, where, g, lim, ' -- the ledger attached again to the same connection with edited prices' if again else '')
+    line['_again'] = again
     out.append(line)
+    return f
+
+
+def edited_prices(entries, rng, plist=None):
+    """the ledger after an edit of its price directives: the same transactions, every rate changed, now and then a
+    directive dropped or a later one added.  Returns (entries, price list in the vocabulary of the trace | None)"""
+    from beancount.core import amount, data
+    out, pl = [], []
+    for e in entries:
+        if not isinstance(e, data.Price):
+            out.append(e)
+            continue
+        if rng.random() < 0.15:
+            continue
+        new = [e._replace(amount=amount.Amount(hb.D(rng.randint(10, 300)) / 10, e.amount.currency))]
+        if rng.random() < 0.2:
+            new.append(new[0]._replace(date=e.date + datetime.timedelta(days=rng.randint(1, 60)),
+                                       amount=amount.Amount(hb.D(rng.randint(10, 300)) / 10, e.amount.currency)))
+        for x in new:
+            if (x.currency, x.amount.currency, x.date.toordinal()) not in {p[:3] for p in pl}:
+                out.append(x)
+                pl.append((x.currency, x.amount.currency, x.date.toordinal(), x.amount.number))
+    return sorted(out, key=data.entry_sortkey), (pl if plist is not None else None)
 
 
 # ---- C2S: tables holding inventories, histories of aggregate statements ---------------------------------------------
@@ -747,6 +1000,7 @@ def validate(ctx, lines, suspects):
                       7: 'group', 8: 'partition', 9: 'limit'}.get(rj['row'], str(rj['row']))
             key = 'hom:%s:%s' % (f_name(ln['f']), clause) if clause in ('sum-of-f', 'f-of-sum', 'f-per-row', 'f-of-sum-value') \
                 else 'sum:%s:%s' % (clause, f_name(ln['f']))
+            key += ':reattached' if ln.get('_again') else ''
             ctx.violation(key, 'law %s rejected by TLC for %s' % (clause, ln['_text']),
                           {'kind': 'trace', 'line': ln, 'verdict': rj}, 'C2S')
     ctx.traces += len(lines) - len(rejected)
@@ -754,10 +1008,12 @@ def validate(ctx, lines, suspects):
 
 
 def classify(ctx, suspects):
-    """replay every unexplained balance observation on the mechanism as shipped; report"""
+    """replay every unexplained balance observation on the mechanism AS THE CODE IS (Balance.tla with the short-circuit
+    operators as shipped; the invariant that fails there is switched off), the rest on the mechanism as shipped before
+    fix 678e809; report"""
     if not suspects.items:
         return
-    lines = []
+    lines = {}
     for n, s in enumerate(suspects.items):
         prog = s['prog']
         if 'trace_rows' in s:
@@ -766,52 +1022,107 @@ def classify(ctx, suspects):
             try:
                 sc = 10 ** max(hb.rows_scale(s['rows']), len(str(s['case']['scale'])) - 1)
                 led = [[[c, [k[0] * sc, k[1], k[2], k[3]]], n_ * (sc // s['case']['scale'])] for (c, k), n_ in prog['ledger']]
-                tp, rows = hb.prog_to_trace(prog, led), hb.rows_to_trace(s['rows'], sc)
+                tp, rows = trace_prog(prog, led), hb.rows_to_trace(s['rows'], sc)
             except hb.OutOfDomain:
                 tp, rows = None, None
         s['n'] = n + 1
         if tp is None:
             continue
-        lines += [{'k': 'begin', 'id': n + 1, 'progs': [tp]}, {'k': 'grant', 'id': n + 1, 't': 1},
-                  {'k': 'end', 'id': n + 1, 'rows': [rows]}]
-    path = ctx.path('c12_suspects.ndjson')
-    with open(path, 'w') as f:
-        for ln in lines:
-            f.write(json.dumps(ln) + '\n')
-    explained = set()
-    if lines:
-        res = ctx.tlc('Trace_Balance', 'Trace_Balance_shipped.cfg', leg='classify', workers=1, env={'TRACE_FILE': path},
-                      timeout=900, jvm=('-Xss64m',))
+        lines[n + 1] = [{'k': 'begin', 'id': n + 1, 'progs': [tp]}, {'k': 'grant', 'id': n + 1, 't': 1},
+                        {'k': 'end', 'id': n + 1, 'rows': [rows]}]
+
+    def explained_by(cfg, ids, name):
+        todo = [ln for n in sorted(ids) for ln in lines[n]]
+        if not todo:
+            return set()
+        path = ctx.path(name)
+        with open(path, 'w') as f:
+            for ln in todo:
+                f.write(json.dumps(ln) + '\n')
+        res = ctx.tlc('Trace_Balance', cfg, leg='classify', workers=1, env={'TRACE_FILE': path}, timeout=900,
+                      jvm=('-Xss64m',))
         verdicts = [p for p in res.printed if isinstance(p, dict)]
-        if not any(p.get('verdict') == 'consumed' and p['lines'] == len(lines) for p in verdicts):
-            raise MachineryError('classification trace not consumed')
-        rej = {p['id'] for p in verdicts if p.get('verdict') == 'rejected'}
-        explained = {s['n'] for s in suspects.items} - rej
+        if not any(p.get('verdict') == 'consumed' and p['lines'] == len(todo) for p in verdicts):
+            raise MachineryError('classification trace not consumed (%s)' % cfg)
+        return set(ids) - {p['id'] for p in verdicts if p.get('verdict') == 'rejected'}
+    lazy_ids = {s['n'] for s in suspects.items if s['n'] in lines and has_nested(s['prog'], ('XL',))}
+    as_is = explained_by('Trace_Balance_asis.cfg', lazy_ids, 'c12_suspects_asis.ndjson')
+    old = explained_by('Trace_Balance_shipped.cfg', set(lines) - as_is, 'c12_suspects.ndjson')
     for s in suspects.items:
         prog = s['prog']
-        known = s['n'] in explained and hb.interposed_between_references(prog)
-        key = KNOWN_KEY if known else 'balance:' + hb.shape_key(prog)
+        lazy = s['n'] in as_is
+        known = not lazy and s['n'] in old and hb.interposed_between_references(prog)
+        key = LAZY_KEY if lazy else KNOWN_KEY if known else 'balance:' + hb.shape_key(prog)
         ctx.violation(key, 'rows of %s differ from the specification%s' % (
-            s['text'], ' (exactly as the process-wide one-entry cache predicts)' if known else ''),
+            s['text'], ' (exactly as the process-wide one-entry cache predicts)' if known else
+            ' (exactly what a short-circuit operator that never calls the balance accessor on the rows its other operand '
+            'decides predicts: those postings are missing from the balance of the following rows)' if lazy else ''),
             s['case'], s['leg'], hb_show_rows(s['expected']), hb_show_rows(s['rows']))
-    ctx.leg('classify', suspects=len(suspects.items), explained_by_shipped_mechanism=len(explained))
+    ctx.leg('classify', suspects=len(suspects.items), explained_by_short_circuit_operators_as_shipped=len(as_is),
+            explained_by_mechanism_shipped_before_678e809=len(old))
 
 
 def hb_show_rows(rows):
     if rows is None:
         return None
-    return [[r[0], [hb.show_inv(v) for v in r[1]], r[2]] for r in rows[:8]]
+    return [[r[0], [hb.show_inv(v) for v in r[1]], r[2] if len(r) > 2 else None] for r in rows[:8]]
+
+
+def small_runs(ctx):
+    """the small TLC runs (non-vacuity: mechanisms TLC must reject; the attach / convert mechanism of Reload): one
+    background thread works through them while the foreground replays and records (ctx.tlc is usable from a thread)"""
+    out = {}
+    out['r1'] = ctx.tlc('MC_Balance', 'MC_Balance_C12_shipped.cfg', leg='MC-nonvacuity', expect_violation='SerialInv', workers=4)
+    ctx.tlc('MC_Balance', 'MC_Balance_C12_nocache.cfg', leg='MC-nonvacuity', expect_violation='ConsultedInv', workers=4)
+    # balance under an enclosing expression: a function call that stops at the first NULL operand must be rejected;
+    # the short-circuit operators as shipped ARE rejected (known finding balance-under-short-circuit-operator)
+    out['r4'] = ctx.tlc('MC_Balance', 'MC_Balance_C12_stopnull.cfg', leg='MC-nonvacuity', expect_violation='PrefixSumInv', workers=4)
+    out['r5'] = ctx.tlc('MC_Balance', 'MC_Balance_C12_lazy.cfg', leg='MC-as-shipped', expect_violation='PrefixSumInv', workers=4)
+    # one connection attached again and again (spec/Reload.tla)
+    out['reload'] = ctx.tlc('MC_Reload', 'MC_Reload.cfg', leg='MC-reload', workers=4)
+    ctx.tlc('MC_Reload', 'MC_Reload_byargs.cfg', leg='MC-nonvacuity', expect_violation='ReloadInv', workers=4)
+    out['r2'] = ctx.tlc('MC_SumStore', 'MC_SumStore_adopt.cfg', leg='MC-nonvacuity', expect_violation='ResultInv', workers=4)
+    if not ctx.quick:
+        ctx.tlc('MC_SumStore', 'MC_SumStore_adopt_hist.cfg', leg='MC-nonvacuity', expect_violation='ResultInv', workers=4)
+    out['r3'] = ctx.tlc('MC_SumStore', 'MC_SumStore_stoplimit.cfg', leg='MC-nonvacuity', expect_violation='ResultInv', workers=4)
+    return out
+
+
+def small_runs_finish(ctx, fut):
+    out = fut.result()              # a MachineryError of the background thread is raised here
+    r1, r2, r3, r4, r5 = (out[k] for k in ('r1', 'r2', 'r3', 'r4', 'r5'))
+    if out['reload'].violated:
+        ctx.violation('spec:reload:' + ','.join(out['reload'].violated), 'TLC violates the property on the property-conforming '
+                      'attach / convert mechanism', {'behaviour': out['reload'].behaviour[:3000]}, 'MC')
+    ctx.leg('MC', stop_at_null_counterexample='g(x, balance) with x NULL on the first posting: the accessor is not called, '
+            'the second row shows the second posting only' if '"XB"' in r4.behaviour else 'see the behaviour reported by TLC',
+            short_circuit_as_shipped='rejected by TLC: x <op> e(balance) loses the postings on which x decides'
+            if '"XL"' in r5.behaviour else 'see the behaviour reported by TLC')
+    if '"B", "S", "B"' not in r1.behaviour.replace('\n', ' '):
+        ctx.notes.append('the shipped-cache counterexample found by TLC is not the B,S,B target list')
+    ctx.leg('MC', shipped_counterexample='targets = <<"B","S","B">>: the interposed scan evicts the entry, the second '
+            'reference adds the posting again' if '"B", "S", "B"' in r1.behaviour.replace('\n', ' ') else 'see notes')
+    ctx.leg('MC', stop_at_limit_counterexample='GROUP BY g LIMIT 1: the scan is abandoned at the first row of the second '
+            'group, later rows of the first group are missing from its sum' if 'StopScan' in r3.behaviour
+            else 'see the behaviour reported by TLC')
+    ctx.leg('MC', adopt_counterexample='two sum(inv) nodes share the adopted first cell: the second row is added twice'
+            if 'slots |-> <<1, 1>>' in r2.behaviour else 'see the behaviour reported by TLC')
 
 
 # ---- the check --------------------------------------------------------------------------------------------------------
 def run(ctx):
     ctx.rule = ('S2C: one case = one TLC-simulated (ledger <= 5 postings over 7 lots x 7 numbers, row filter, 2 groups, '
-                'conjunct list, target list with 0..3 balance references, interposed subquery with/without balance, one of '
-                '4 price tables -- one with prices dated in 2999), distinct by its JSON; non-trivial = at least one posting.  C2S: one line = one statement family on '
+                'conjunct list, target list with 0..3 balance references -- plain or inside a function call / under a '
+                'short-circuit operator next to an operand with a NULL pattern over the postings --, interposed subquery '
+                'with/without balance, one of 4 price tables -- one with prices dated in 2999 -- and one of 4 for the second '
+                'attachment of the ledger to the same connection), distinct by its JSON; non-trivial = at least one posting.  '
+                'C2S: one line = one statement family on '
                 'a window of the Beancount example ledger or a seeded random ledger; distinct by statement and data; one '
                 'evaluation per statement executed over a sub-select of partial sums or over a table holding inventories '
                 '(S2C: chunks of the generated ledger; C2S: per-transaction inventories, history of 2..4 statements) and per '
-                'grouped statement over postings repeated with a LIMIT')
+                'grouped statement over postings repeated with a LIMIT; LAW: one statement pair (E(balance) alone / next '
+                'to a plain balance target) on such a ledger, distinct by expression, selection and size, non-trivial = '
+                'at least two rows')
     ctx.assumptions += [
         'numbers: integers in the specification; the driver scales units by 1, 10 or 100 (all four functions are linear '
         'in the units); trace files carry integers in minor units, cases needing |n| >= 2^31 are skipped and counted',
@@ -824,11 +1135,28 @@ def run(ctx):
         'tables holding inventories: the expected result of every statement of a history is computed from the table as '
         'the driver defined it (recorded before anything runs): a SELECT that changes the values stored in a user table is '
         'counted as a wrong sum of "the group\'s values" from the next statement on',
+        'balance inside an enclosing expression: the statement "the balance column of a selected posting equals the '
+        'inventory sum of position over the selected postings up to and including it ... however many times the targets '
+        'reference it" is read for EVERY reference the targets contain, also one that an enclosing function call or '
+        'operator does not show (or does not evaluate) on some rows: the rows where it IS shown must carry the prefix sum '
+        'over all selected postings.  Function calls conform (all operands are evaluated before the NULL test); the '
+        'short-circuit operators AND / OR / coalesce / binary operators do not (known finding '
+        'balance-under-short-circuit-operator): observations that are EXACTLY what TLC computes for the mechanism as '
+        'shipped get that key, anything else a key of its own',
+        'identity-like BQL functions c12_second / c12_first / c12_mark are registered through query_env.function (the '
+        'public registry, as a plugin would): they go through the same generic wrapper as every built-in function; the '
+        'built-in functions themselves (only, convert, value, filter_currency) are exercised by the LAW leg',
+        'second attachment: Connection.attach(\'beancount:\', entries=..) on the connection the first ledger was '
+        'attached to (what the shell does on .reload); results must depend on the data attached when the statement runs',
         'TLC 1.8 with Json/IOUtils, CPython 3.12, Beancount 3.x Inventory / convert / prices as the meaning of "Beancount '
         'inventory sum"; harness/balance.py (projection) is trusted',
     ]
     rng = ctx.rng
     suspects = Suspects()
+    import concurrent.futures as cf
+    pool = cf.ThreadPoolExecutor(1)
+    background = pool.submit(small_runs, ctx)
+    pool.shutdown(wait=False)
     # ---- MC
     ctx.tlc('MC_Inventory', ctx.pick('MC_Inventory.cfg', 'MC_Inventory4.cfg'), leg='MC-laws')
     ctx.tlc('MC_Inventory', 'MC_Inventory_bad.cfg', leg='MC-nonvacuity', expect_violation='BadLaw', workers=4)
@@ -836,26 +1164,11 @@ def run(ctx):
     if res.violated:
         ctx.violation('spec:' + ','.join(res.violated), 'TLC violates the property on the property-conforming mechanism',
                       {'behaviour': res.behaviour[:3000]}, 'MC')
-    r1 = ctx.tlc('MC_Balance', 'MC_Balance_C12_shipped.cfg', leg='MC-nonvacuity', expect_violation='SerialInv', workers=4)
-    ctx.tlc('MC_Balance', 'MC_Balance_C12_nocache.cfg', leg='MC-nonvacuity', expect_violation='ConsultedInv', workers=4)
-    if '"B", "S", "B"' not in r1.behaviour.replace('\n', ' '):
-        ctx.notes.append('the shipped-cache counterexample found by TLC is not the B,S,B target list')
-    ctx.leg('MC', shipped_counterexample='targets = <<"B","S","B">>: the interposed scan evicts the entry, the second '
-            'reference adds the posting again' if '"B", "S", "B"' in r1.behaviour.replace('\n', ' ') else 'see notes')
     # ---- MC: sum() over inventory values (objects with identity, several nodes over one operand, histories)
     res = ctx.tlc('MC_SumStore', ctx.pick('MC_SumStore.cfg', 'MC_SumStore_t.cfg'), leg='MC-sum-inventory', workers=ctx.pick(4, 16))
     if res.violated:
         ctx.violation('spec:sumstore:' + ','.join(res.violated), 'TLC violates the property on the property-conforming '
                       'aggregate mechanism', {'behaviour': res.behaviour[:3000]}, 'MC')
-    r2 = ctx.tlc('MC_SumStore', 'MC_SumStore_adopt.cfg', leg='MC-nonvacuity', expect_violation='ResultInv', workers=4)
-    if not ctx.quick:
-        ctx.tlc('MC_SumStore', 'MC_SumStore_adopt_hist.cfg', leg='MC-nonvacuity', expect_violation='ResultInv', workers=4)
-    r3 = ctx.tlc('MC_SumStore', 'MC_SumStore_stoplimit.cfg', leg='MC-nonvacuity', expect_violation='ResultInv', workers=4)
-    ctx.leg('MC', stop_at_limit_counterexample='GROUP BY g LIMIT 1: the scan is abandoned at the first row of the second '
-            'group, later rows of the first group are missing from its sum' if 'StopScan' in r3.behaviour
-            else 'see the behaviour reported by TLC')
-    ctx.leg('MC', adopt_counterexample='two sum(inv) nodes share the adopted first cell: the second row is added twice'
-            if 'slots |-> <<1, 1>>' in r2.behaviour else 'see the behaviour reported by TLC')
     # ---- S2C
     ncases = ctx.pick(1000, 16000)
     w = 8
@@ -864,10 +1177,16 @@ def run(ctx):
     cases = [p for p in res.printed if isinstance(p, dict) and 'ledger' in p]
     if len(cases) < ncases // 2:
         raise MachineryError('generator emitted %d cases, wanted about %d' % (len(cases), ncases))
-    seen = {'B2': 0, 'S': 0, 'BN': 0, 'cost': 0, 'reduce': 0, 'fromsplit': 0}
+    seen = {'B2': 0, 'S': 0, 'BN': 0, 'cost': 0, 'reduce': 0, 'fromsplit': 0, 'function_operand': 0, 'short_circuit': 0,
+            'null_before_shown': 0, 'other_prices_on_reattach': 0}
     nbad = 0
     for n, c in enumerate(cases):
-        key = json.dumps([c[k] for k in ('ledger', 'mask', 'grp', 'where', 'targets', 'subbal', 'prices')])
+        key = json.dumps([c[k] for k in ('ledger', 'mask', 'grp', 'where', 'targets', 'subbal', 'prices', 'nul', 'prices2')])
+        seen['function_operand'] += any(a in ('XB', 'BX') for a in c['targets'])
+        seen['short_circuit'] += 'XL' in c['targets']
+        seen['null_before_shown'] += any(a in NESTED for a in c['targets']) and any(
+            c['nul'][i] and not c['nul'][j] for j in range(len(c['nul'])) for i in range(j))
+        seen['other_prices_on_reattach'] += c['prices'] != c['prices2']
         ctx.case(key, nontrivial=len(c['ledger']) > 0)
         seen['B2'] += c['targets'].count('B') >= 2
         seen['S'] += 'S' in c['targets'] + c['where']
@@ -881,9 +1200,11 @@ def run(ctx):
         if k != 'fromsplit' and not v:
             raise MachineryError('vacuity: no generated case with feature %s' % k)
     ctx.leg('S2C', cases=len(cases), mismatching_cases=nbad, features=seen)
+    ctx.log('S2C: %d cases replayed, %d mismatching' % (len(cases), nbad))
     # ---- C2S
     lines = []
     ilines = []
+    law = {'pairs': 0, 'null_rows': 0}
     ex = example_entries(ctx.seed)
     nwin = ctx.pick(40, 400)
     for _ in range(nwin):
@@ -892,24 +1213,41 @@ def run(ctx):
             continue
         conn = hb.connect(entries)
         for _ in range(3):
-            record_serial(ctx, conn, npost, rng, EX_MASKS, lines, suspects)
-        for _ in range(3):
-            record_hom(ctx, conn, rng, EX_MASKS, EX_GROUPS, EX_DATES, lines)
+            record_serial(ctx, conn, npost, rng, EX_MASKS, lines, suspects, EX_NULLABLE)
+        used = [record_hom(ctx, conn, rng, EX_MASKS, EX_GROUPS, EX_DATES, lines) for _ in range(3)]
         record_isum(ctx, conn, entries, rng, EX_DATES, ilines)
+        for _ in range(2):
+            check_reference_law(ctx, conn, entries, rng, EX_MASKS, law)
+        # the price directives are edited and the ledger is attached to the same connection again
+        reattach(conn, edited_prices(entries, rng)[0])
+        for f in rng.sample(used, 2):
+            record_hom(ctx, conn, rng, EX_MASKS, EX_GROUPS, EX_DATES, lines, f=f, again=True)
+    ctx.log('C2S: %d example windows recorded' % nwin)
     nrnd = ctx.pick(60, 700)
     for _ in range(nrnd):
         entries, npost, prices = random_ledger(rng, rng.randint(3, 40))
         conn = hb.connect(entries)
         for _ in range(2):
-            record_serial(ctx, conn, npost, rng, RND_MASKS, lines, suspects)
-        for _ in range(3):
-            record_hom(ctx, conn, rng, RND_MASKS, RND_GROUPS, RND_DATES, lines, prices=prices)
+            record_serial(ctx, conn, npost, rng, RND_MASKS, lines, suspects, RND_NULLABLE)
+        used = [record_hom(ctx, conn, rng, RND_MASKS, RND_GROUPS, RND_DATES, lines, prices=prices) for _ in range(3)]
         record_isum(ctx, conn, entries, rng, RND_DATES, ilines, prices=prices)
+        check_reference_law(ctx, conn, entries, rng, RND_MASKS, law)
+        entries2, prices2 = edited_prices(entries, rng, prices)
+        reattach(conn, entries2)
+        for f in rng.sample(used, 2):
+            record_hom(ctx, conn, rng, RND_MASKS, RND_GROUPS, RND_DATES, lines, prices=prices2, f=f, again=True)
+    ctx.log('C2S: %d random ledgers recorded' % nrnd)
+    ctx.leg('LAW', statement_pairs=law['pairs'], rows_on_which_the_expression_is_null=law['null_rows'])
+    if not law['null_rows']:
+        raise MachineryError('vacuity: no expression of the reference-count law was NULL on any row')
     if lines:
         ctx.sample({'leg': 'C2S', 'line': {k: (v if not isinstance(v, list) else v[:3]) for k, v in lines[0].items()}})
+    small_runs_finish(ctx, background)
     nops = sum(1 for ln in lines if ln['k'] == 'hom' and ln['op'])
     nrej = validate(ctx, lines, suspects)
     ctx.leg('C2S', lines=len(lines), serial_lines=sum(1 for ln in lines if ln['k'] == 'serial'),
+            serial_lines_balance_under_enclosing_expression=sum(1 for ln in lines if ln['k'] == 'serial' and 'nul' in ln['prog']),
+            hom_lines_after_second_attachment=sum(1 for ln in lines if ln.get('_again')),
             hom_lines=sum(1 for ln in lines if ln['k'] == 'hom'), hom_lines_recomputed_by_operators=nops,
             rejected=nrej, example_windows=nwin, random_ledgers=nrnd)
     if not nops:
@@ -954,5 +1292,12 @@ def replay(ctx, rep):
         rej = [p for p in res.printed if isinstance(p, dict) and p.get('verdict') == 'rejected']
         print('replay: recorded history', 'rejected by TLC: %s' % rej if rej else 'accepted by TLC')
         return 1 if rej else 0
+    if case.get('kind') == 'law':
+        r1, v2 = law_rows(hb.connect(unpack_entries(case['entries'])), case['expression'], case['where'], case['first'])
+        bad = [(a, b) for a, b in zip(r1, v2) if a != b]
+        for a, b in bad[:5]:
+            print('replay: posting %s: %s = %r alone, %r next to a plain balance target' % (a[0], case['expression'], a[1], b[1]))
+        print('replay:', 'MISMATCH reproduced' if bad or len(r1) != len(v2) else 'no mismatch')
+        return 1 if bad or len(r1) != len(v2) else 0
     print('replay: case kind not replayable standalone; re-run the check')
     return 2
